@@ -364,7 +364,7 @@ pub const fn relocation_type_from_raw(r_type: u32) -> Option<RelocationKindInfo>
             RelocationKind::Relative,
             RelocationSize::bit_mask_aarch64(0, 16, AArch64Instruction::Movnz),
             None,
-            AllowedRange::no_check(),
+            AllowedRange::from_bit_size(17, Sign::Signed),
             1,
         ),
         object::elf::R_AARCH64_MOVW_PREL_G0_NC => (
@@ -378,7 +378,7 @@ pub const fn relocation_type_from_raw(r_type: u32) -> Option<RelocationKindInfo>
             RelocationKind::Relative,
             RelocationSize::bit_mask_aarch64(16, 32, AArch64Instruction::Movnz),
             None,
-            AllowedRange::no_check(),
+            AllowedRange::from_bit_size(33, Sign::Signed),
             1,
         ),
         object::elf::R_AARCH64_MOVW_PREL_G1_NC => (
@@ -392,7 +392,7 @@ pub const fn relocation_type_from_raw(r_type: u32) -> Option<RelocationKindInfo>
             RelocationKind::Relative,
             RelocationSize::bit_mask_aarch64(32, 48, AArch64Instruction::Movnz),
             None,
-            AllowedRange::no_check(),
+            AllowedRange::from_bit_size(49, Sign::Signed),
             1,
         ),
         object::elf::R_AARCH64_MOVW_PREL_G2_NC => (
